@@ -204,6 +204,12 @@ def check(repo: Repo, R) -> None:
     # ... the unit's ports as a new parent sees them, whether or not the unit was elaborated before
     from . import c07 as _c07
     R.run(_c07.new_parents_see_original_ports, repo, R, "C19.4-wrapper")
+    # a unit's bundle port is re-connected member by member to the child's *own* flattened port (whatever name it had to take),
+    # and the flattened array elements get names that are free in the stack (C01.4 / C05.1 clauses)
+    R.run(c01.bundle_conn_path, repo, R, "C19.7-unit-ports-reach-the-unit")
+    from . import c05 as _c05
+    R.run(_c05.check, repo, shared.Retag(R, lambda r, k: "C19.7-unit-ports-reach-the-unit" if r.startswith("C05.1") and "arrays.py" in k else None,
+                                        "a unit with a port named `units_1` loses it: the flattened element `units_1` takes the name and evicts the stack's cloned port"))
     # the array partition this topology relies on
     R.run(c01.array_partition, repo, R, "C19.5-array-element-k-gets-bit-k")
     # the generators build a fresh module on every call: no table of earlier results lives in the file
